@@ -1,6 +1,7 @@
-(* C02/Refuted.v — the two clauses of ValidTS that the gate as it is in /repo does not
-   establish (findings F1 and F14), with concrete witnesses, and the behaviour of the
-   repaired variant on the same witnesses. *)
+(* C02/Refuted.v — HISTORICAL RECORD: the two clauses of ValidTS that the PINNED pre-fix gate
+   ([faithful] = [pinned], /repo at 380c75d) did not establish (F1, fixed by e4937b5; F14, fixed
+   by c14733b), with concrete witnesses, and the behaviour of the current code ([repaired] =
+   [code_variant]) on the same witnesses. *)
 From Coq Require Import List ZArith Bool Lia Permutation.
 From TskVerif Require Import Base.Common C02.Fl C02.Model C02.Arr C02.Spec C02.ListX.
 Import ListNotations.
